@@ -268,9 +268,10 @@ theorem C22_lib_rounds_counterexample :
 /-- SAFETY ACROSS AUTHORITY SETS.  The system of Lib/C22Sets: one protocol state per set id, voter set `P.vs s` for
     set s (its own weights and Byzantine members; a key outside `(P.vs s).ids` — e.g. a retired authority that keeps
     voting — weighs nothing in set s), every step is a step of the single-set protocol in one set.  ASSUMED of honest
-    voters (`okVote`): a vote of set s is never strictly above the handover block `P.limit s` (votes are capped at
-    the pending change); a vote of set s+1 descends from `P.limit s` and is cast only once `P.limit s` has a
-    supermajority of the precommits of some round of set s (one enters a set by finalising the handover block).
+    voters (`okVote`, for PRECOMMITS only): a precommit of set s is never strictly above the handover block
+    `P.limit s` (capped at the pending change); a precommit of set s+1 descends from `P.limit s` and is cast only
+    once `P.limit s` has a supermajority of the precommits of some round of set s (one enters a set by finalising
+    the handover block).
     ASSUMED of the parameters: the handover blocks lie on one chain.  PROVED: any two blocks finalised by honest
     voters, in any rounds of any sets, lie on one chain, if every set from the lower to the higher one keeps its
     Byzantine members below a third of its weight. -/
